@@ -91,7 +91,7 @@ def run(chk):
         for d in corr_bad:
             chk.broken.append({"file": "corr_C03.py", "item": d["signature"], "coqc_output": d["what"]})
     # ---- numeric harness (deep when something broke)
-    if (chk.broken or not proofs_ok) and chk.tier != "thorough":
+    if (chk.broken or not proofs_ok) and chk.tier != "thorough" and not (sdoc and sdoc["failures"]):
         sdoc2, sout2 = _search(chk, N_THOROUGH)
         if sdoc2 is not None and (sdoc is None or sdoc2["failures"] or not sdoc["failures"]):
             sdoc, sout = sdoc2, sout2
